@@ -68,7 +68,7 @@ func c20LongWords(d c20Long) (ws []string, total, maxWord int, ok bool) {
 	return ws, total, maxWord, true
 }
 
-var c20LongSizes = []int{65536, 65537, 65535, 4096, 4097, 4095, 32768, 32769, 32767, 256, 257, 255, 131072, 1 << 20}
+var c20LongSizes = []int{65536, 65537, 65535, 4096, 4097, 4095, 32768, 32769, 32767, 256, 257, 255, 128, 129, 127, 131072, 1 << 20}
 
 func c20LongGen(fillers, seps, pres []string) *rapid.Generator[c20Long] {
 	return rapid.Custom(func(rt *rapid.T) c20Long {
